@@ -4,7 +4,8 @@ pid=sys.argv[1]
 for l in open('/verif/properties.jsonl'):
     p=json.loads(l)
     if p['id']==pid: break
-wt=f"/tmp/seed_{pid}"
+wt=f"/tmp/seed{sys.argv[2] if len(sys.argv)>2 else ''}_{pid}"
+hint=(" NOTE: another engineer has already produced a change for this property that modified " + sys.argv[3] + ". Your change must use a DIFFERENT mechanism and a different code site, and should need a different kind of trigger.") if len(sys.argv)>3 else ""
 print(f"""You are helping to evaluate a verification effort by acting as a careful, realistic "bug author". You work ONLY inside the git worktree {wt} (a checkout of the Rust project ciphercore: a compiler from typed computation graphs to ABY3 three-party MPC protocol graphs, with type inference, optimizer, inliner and a local evaluator; the main crate is ciphercore-base). Do not read or write anything under /verif or /repo, and do not look at other /tmp/seed_* or /tmp/w_* directories. There is no network; build with `cargo ... --offline`. The machine is shared: use `-j4` for cargo builds and do not run more than one cargo command at a time.
 
 Here is a semantic property that the code base is supposed to satisfy:
@@ -15,7 +16,7 @@ Here is a semantic property that the code base is supposed to satisfy:
   Why the existing tests cannot settle it: {p['why_tests_cant']}
   Code it is anchored in: {', '.join(p['anchors']['files'])}
 
-YOUR TASK: make ONE small source change (a plausible mistake a maintainer could make in a refactoring or an "optimisation": a few lines, in the anchored code or code it relies on) that BREAKS this property, such that
+YOUR TASK:"""+hint+""" Make ONE small source change (a plausible mistake a maintainer could make in a refactoring or an "optimisation": a few lines, in the anchored code or code it relies on) that BREAKS this property, such that
   (1) the workspace still compiles (`cargo build -p ciphercore-base --offline -j4`),
   (2) the existing test suite still passes: at the very least run the unit tests of every module you touched and of the modules that exercise it, e.g. `cargo test -p ciphercore-base --offline --lib -j4 <module_path_filter>`; then, if time permits, the whole suite `cargo test -p ciphercore-base --offline --lib -j4` (it has ~450 tests and takes a long time on this loaded machine; report exactly which test commands you ran and their pass counts). If an existing test fails, your change is not acceptable: find another one.
   (3) the breakage needs something SPECIFIC to manifest — a particular unusual input or parameter combination, a multi-step sequence of API calls, a specific size/width/length threshold, a particular configuration, or two cooperating code sites that each look fine alone — and is NOT exposed at once by ordinary simple use (the trivial examples in the documentation and tests must keep working).
